@@ -529,7 +529,6 @@ package builder
 //@ axiom wf-bltable: forall c *charClassMatcher, r rune :: {c.basicLatinChars[r]} c != nil && 0 <= r && r < 128 ==> c.basicLatinChars[r] == ClassHit(c, foldC(c, r))
 //@ #endif
 
-
 // ======================================================================================
 // State store (C05, C18)
 // ======================================================================================
@@ -608,7 +607,6 @@ package builder
 //@ pred StoreSame(p *parser) bool = true
 //@ #endif
 
-
 // ======================================================================================
 // Memoization (C06) and statistics
 // ======================================================================================
@@ -671,8 +669,6 @@ package builder
 //@   safety C11
 //@   frame C18
 //@ #endif
-
-
 
 // ======================================================================================
 // Entry: newParser, options, rules table, parse (C01, C11, C16, C18)
